@@ -9,7 +9,7 @@ import z3
 
 from pyvc.framework import Harness
 from pyvc.interp import Spec, LoopSpec, PyRaise
-from pyvc.values import SInt, SBool, SymStream, Obj, GenObj
+from pyvc.values import SInt, SBool, SymStream, Obj, GenObj, PyList, Opaque
 from pyvc.ops import zint, zbool, make_dict
 
 PROPERTY = "C09"
@@ -208,7 +208,7 @@ def quantifier_obj(vm, qcls, constraint, with_var):
         var_id = 7
         var = vm.alloc(cls(vm, SYM, "Variable"), {"_id_": var_id}, tag="var")
     stream, n = child_stream(vm, var_id)
-    child = vm.alloc(cls(vm, SYM, "QueryObjectDescriptor"), {"_var_": var}, tag="child")
+    child = vm.alloc(cls(vm, SYM, "QueryObjectDescriptor"), {"_var_": var, "selected_variables": PyList([var] if var is not None else [])}, tag="child")
     child.fields["ghost_stream"] = stream
     q = vm.alloc(cls(vm, SYM, qcls), {"_child_": child, "_quantification_constraint_": constraint, "_var_": var,
                                       "_id_": 3, "_eval_parent_": None}, tag="quantifier")
@@ -251,6 +251,10 @@ def make_spec():
     s.stubs["QueryObjectDescriptor._evaluate__"] = stub_child_evaluate
     s.loops[("ResultQuantifier._evaluate__", 0)] = LoopSpec(inv=loop_inv, name="count = consumed = yielded <= upper")
     s.stream_loops["child"] = s.loops[("ResultQuantifier._evaluate__", 0)]      # wherever the loop over the child's results lives
+    # a container the loop keeps (e.g. a memory of results already reported) has unknown content at an arbitrary iteration:
+    # membership tests may go either way
+    from .lib import AnySeq
+    s.opaque_hooks["havoc_container"] = lambda it, old, what: AnySeq(what, lambda it2: Opaque("remembered"))
     return s
 
 
